@@ -149,9 +149,17 @@ def keys(ctx, branches):
     ctx.ob("R20.1", "_write_node[Path d]", d == ["node.d(transformed=False)"], str(d), line, "path data is written untransformed (the transform attribute carries the matrix)")
     for cls in ("Polyline", "Polygon"):
         tag, em, line = seen[cls]
-        v = [x for k, _, x, _ in em if k == "points"]
-        ok = len(v) == 1 and "for e in node.points" in v[0] and "e[0]" in v[0] and "e[1]" in v[0] and v[0].index("e[0]") < v[0].index("e[1]") and "' '.join" in v[0]
-        ctx.ob("R20.1", "_write_node[%s points]" % cls, ok, v[0][:80] if v else "", line, "points are written as 'x y' pairs in order, separated by white space")
+        body = [b for c_, b, _ in branches if c_ == cls][0]
+        vals = []
+        for st in stmts_in(body):
+            if isinstance(st, ast.Expr) and isinstance(st.value, ast.Call) and ast.unparse(st.value.func) == "xml_tree.set" and _const(ctx, st.value.args[0]) == "points":
+                vals.append(st.value.args[1])
+        single = {}
+        for st in stmts_in(body):
+            if isinstance(st, ast.Assign) and len(st.targets) == 1 and isinstance(st.targets[0], ast.Name):
+                single.setdefault(st.targets[0].id, []).append(st.value)
+        ok = len(vals) == 1 and _points_text(vals[0], single)
+        ctx.ob("R20.1", "_write_node[%s points]" % cls, ok, ast.unparse(vals[0])[:80] if vals else "", line, "points are written as 'x y' pairs in order, separated by white space")
     # SVG element itself
     tag, em, line = seen["SVG"]
     got = {k for k, _, _, _ in em}
@@ -207,6 +215,56 @@ def keys(ctx, branches):
            "reify scales rx by %s and ry by %s; the Circle branch reads node.ry: %s" % (sorted(facs.get("rx", [])), sorted(facs.get("ry", [])), mentions_ry), line,
            "Circle(r=10, transform='scale(2,1)').reify() has rx = 20, ry = 10; it is written as <circle r=\"20\"> and read back as a circle of radius 20")
     return seen
+
+
+def _points_text(v, single):
+    """<white space>.join(<'x y' text of each point of node.points, x before y>)"""
+    while isinstance(v, ast.Name) and len(single.get(v.id, ())) == 1:
+        v = single[v.id][0]
+    if not (isinstance(v, ast.Call) and isinstance(v.func, ast.Attribute) and v.func.attr == "join" and isinstance(v.func.value, ast.Constant) and isinstance(v.func.value.value, str)
+            and v.func.value.value != "" and v.func.value.value.strip(" ,") == "" and len(v.args) == 1):
+        return False
+    comp = v.args[0]
+    if not (isinstance(comp, (ast.ListComp, ast.GeneratorExp)) and len(comp.generators) == 1 and not comp.generators[0].ifs and isinstance(comp.generators[0].target, ast.Name)):
+        return False
+    it = comp.generators[0].iter
+    while isinstance(it, ast.Name) and len(single.get(it.id, ())) == 1:
+        it = single[it.id][0]
+    if attr_chain(it) != ["node", "points"]:
+        return False
+    e = comp.generators[0].target.id
+    order = []
+    seps = []
+    elt = comp.elt
+    if isinstance(elt, ast.JoinedStr):
+        for part in elt.values:
+            if isinstance(part, ast.FormattedValue):
+                x = part.value
+                if isinstance(x, ast.Subscript) and isinstance(x.value, ast.Name) and x.value.id == e and isinstance(x.slice, ast.Constant):
+                    order.append(x.slice.value)
+                elif isinstance(x, ast.Attribute) and isinstance(x.value, ast.Name) and x.value.id == e:
+                    order.append({"x": 0, "y": 1}.get(x.attr))
+                else:
+                    return False
+            elif isinstance(part, ast.Constant):
+                seps.append(part.value)
+    elif isinstance(elt, ast.BinOp) and isinstance(elt.op, ast.Mod) and isinstance(elt.left, ast.Constant) and isinstance(elt.right, ast.Tuple):
+        seps = [x for x in __import__("re").split(r"%[sdgGfr]", elt.left.value) if x]
+        for x in elt.right.elts:
+            if isinstance(x, ast.Subscript) and isinstance(x.value, ast.Name) and x.value.id == e and isinstance(x.slice, ast.Constant):
+                order.append(x.slice.value)
+            else:
+                return False
+    elif isinstance(elt, ast.Call) and isinstance(elt.func, ast.Attribute) and elt.func.attr == "format" and isinstance(elt.func.value, ast.Constant):
+        seps = [x for x in __import__("re").split(r"\{[^}]*\}", elt.func.value.value) if x]
+        for x in elt.args:
+            if isinstance(x, ast.Subscript) and isinstance(x.value, ast.Name) and x.value.id == e and isinstance(x.slice, ast.Constant):
+                order.append(x.slice.value)
+            else:
+                return False
+    else:
+        return False
+    return order == [0, 1] and len(seps) == 1 and seps[0] != "" and seps[0].strip(" ,") == ""
 
 
 def _const(ctx, node):
